@@ -37,6 +37,7 @@ func (c06) Gen(r *rand.Rand, tier string, run int) *core.Case {
 	hostiles := 1 + r.IntN(2)
 	c.Params["hostiles"] = hostiles
 	c.Params["honest"] = r.IntN(2)
+	c.Params["local_client"] = r.IntN(3) // 0 no; 1 before the hostile connections; 2 concurrently
 	for x := 0; x < hostiles; x++ {
 		n := 2 + r.IntN(7)
 		for i := 0; i < n; i++ {
@@ -142,6 +143,32 @@ func (c06) Run(c *core.Case, env *core.Env) {
 				_, err = p.Noarg()
 				env.Return(h, "", err)
 			}
+		}()
+	}
+	// the hosting process may use the server's in-process client (which needs
+	// no authentication) for its own purposes
+	local := func() {
+		zzsim.SetNode("server")
+		cl := w.Srv.Client()
+		p, err := ProbeProxy(cl, w.ServiceID, 1)
+		zzsim.SetNode("harness")
+		if err != nil {
+			env.Violate("local-client-refused", "the server's own in-process client could not reach the service: %v", err)
+			return
+		}
+		tok := probe.Token{Client: 1, Seq: 50, Nonce: 9, Text: "l"}
+		h := env.Invoke(1, "echo", tokOf(tok).Key())
+		ret, err := p.Echo(tok)
+		env.Return(h, tokOf(ret).String(), err)
+	}
+	switch c.P("local_client", 0) {
+	case 1:
+		local()
+	case 2:
+		wg.Add(1)
+		go func() {
+			defer wg.Done()
+			local()
 		}()
 	}
 	by := map[int][]core.Op{}
